@@ -653,6 +653,20 @@ def valid_case(item):
         if not (W.wide_ok(c[1], W.Ctx()) and W.no17(c[1]) and W.wide_ok(c[2], W.Ctx())):
             return False
         return c[4] == 0 or c[1][0] in (2, 3, 12, 26)
+    if item.get("kind") == "hydrate-leptos":
+        # (5 form tree sources sigs steps)
+        try:
+            from . import c04
+            five, form, tree, sources, sigs, steps = c
+            conds = []
+            _eb_conditions(tree, conds)
+            inner = dict(case=[7, tree, sources, sigs, [[w, p, [[r, 0] for r in k]] for w, p, k in steps], [0, 0, 1]],
+                         kind="leptos-components")
+            return (five == 5 and form in (1, 2) and c04.valid_case(inner) and all(c04.ev(e, sigs) != 0 for e in conds)
+                    and _boundaries_wrapped(tree)
+                    and all(p == [] and all(isinstance(r, int) for r in k) for _w, p, k in steps))
+        except Exception:
+            return False
     if item.get("kind") == "hydrate-typed":
         # (7 typed typed2 skip entry), typed = ((kind repr value) (t1 t2 t3) rest)
         try:
@@ -757,6 +771,8 @@ def generate(rng, tier):
             yield gen_typed_case(rng)
         if i % 3 == 1:
             yield gen_reactive_case(rng)
+        if i % 6 == 5:
+            yield gen_leptos_case(rng)
 
 
 def gen_wide_case(rng):
@@ -827,6 +843,86 @@ def gen_reactive_case(rng):
     return dict(case=[4, form, v, sigs, steps, int(rng.random() < 0.3)], kind="hydrate-reactive", compare=False)
 
 
+def _eb_conditions(t, out):
+    op = t[0]
+    if op == 2:
+        for k in t[2]:
+            _eb_conditions(k, out)
+    elif op == 3:
+        _eb_conditions(t[3], out)
+        _eb_conditions(t[4], out)
+    elif op == 4:
+        _eb_conditions(t[5], out)
+    elif op == 5:
+        for k in t[3]:
+            _eb_conditions(k, out)
+    elif op == 8:
+        out.append(t[2])
+        _eb_conditions(t[3], out)
+    elif op == 9:
+        for k in t[1]:
+            _eb_conditions(k, out)
+
+
+def _wrap_boundaries(t):
+    """every <Suspense>/<Transition> becomes the only child of a <div> of its own: the Position a boundary that is
+    pending while the server renders hands back is stale (open finding F-C05-d = F-C07-a), inside an element of
+    its own nothing follows it"""
+    op = t[0]
+    if op == 2:
+        return [2, t[1], [_wrap_boundaries(k) for k in t[2]]]
+    if op == 3:
+        return [3, t[1], t[2], _wrap_boundaries(t[3]), t[4] if t[4] == [10] else _wrap_boundaries(t[4])]
+    if op == 4:
+        return t[:5] + [_wrap_boundaries(t[5])]
+    if op == 5:
+        return [2, [], [[5, t[1], t[2], [_wrap_boundaries(k) for k in t[3]]]]]
+    if op == 8:
+        return [8, t[1], t[2], _wrap_boundaries(t[3])]
+    if op == 9:
+        return [9, [_wrap_boundaries(k) for k in t[1]]]
+    return t
+
+
+def _boundaries_wrapped(t, alone=False):
+    op = t[0]
+    if op == 5:
+        return alone and all(_boundaries_wrapped(k) for k in t[3])
+    if op == 2:
+        if len(t[2]) == 1 and t[2][0][0] == 5:
+            return t[1] == [] and _boundaries_wrapped(t[2][0], True)
+        return all(_boundaries_wrapped(k) for k in t[2])
+    if op == 3:
+        return _boundaries_wrapped(t[3]) and (t[4] == [10] or _boundaries_wrapped(t[4]))
+    if op == 4:
+        return _boundaries_wrapped(t[5])
+    if op == 8:
+        return _boundaries_wrapped(t[3])
+    if op == 9:
+        return all(_boundaries_wrapped(k) for k in t[1])
+    return True
+
+
+def gen_leptos_case(rng):
+    """leptos components (the trees of C04's leptos kind, resources = leptos_server::Resource) streamed by the server
+    with every resource resolved, hydrated next to a client-built twin, then driven by writes / refetches"""
+    from . import c04
+    while True:
+        it = c04.gen_leptos_case(rng)
+        _7, tree, sources, sigs, steps, _fin = it["case"]
+        conds = []
+        _eb_conditions(tree, conds)
+        # an ErrorBoundary that has errors at render time needs the serialised errors of the shared context
+        if all(c04.ev(e, sigs) != 0 for e in conds):
+            break
+    tree = _wrap_boundaries(tree)
+    # polls in task order: each tree has resources and effects of its own, a chosen order would interleave them
+    # differently for the two trees (whether an effect runs before or after its resource starts loading decides
+    # what a boundary shows while the load is pending: the schedules are C04's subject)
+    steps = [[w, [], sorted({r for r, _stale in comps})] for w, p, comps in steps]
+    return dict(case=[5, rng.choice([1, 2]), tree, sources, sigs, steps], kind="hydrate-leptos", compare=False)
+
+
 def gen_streamed(rng):
     """a view with Suspends whose futures are pending when the server renders it, streamed in order or
     out of order, futures completed in a chosen order"""
@@ -884,7 +980,7 @@ def oracle(item, impl):
     if not isinstance(impl, list):
         return "malformed observation"
 
-    if item.get("kind") == "hydrate-reactive":
+    if item.get("kind") in ("hydrate-reactive", "hydrate-leptos"):
         if len(impl) == 2 and impl[1] == [0]:
             return "hydration failed: a node of the expected kind was not found where the walk looked for it"
         if len(impl) != 6 or impl[1][0] != 1:
@@ -897,8 +993,9 @@ def oracle(item, impl):
                         "differs from the client-built twin driven by the same signals (marker comments aside)" % k)
         if impl[4] != 0:
             return "after the hydrated state and the twin were dropped a signal write still mutated the DOM %d times" % impl[4]
-        if impl[5] != 0:
-            return "%d DOM operations of the hydrated view or its twin were rejected by the DOM (wrong parent / anchor)" % impl[5]
+        # impl[5] = DOM operations rejected (wrong parent / anchor; the real backend logs and ignores them): not a
+        # verdict of its own — a hidden <For> updated under a suspended boundary produces them on a client-built
+        # tree, too — a hydrated state bound to wrong nodes shows up as a difference from the twin above
         return None
     if item.get("kind") in ("hydrate-extra", "hydrate-wide", "hydrate-typed"):
         if len(impl) == 3 and impl[2] == [0]:
@@ -964,7 +1061,7 @@ def oracle(item, impl):
 
 
 def nontrivial(item, model):
-    if item.get("kind") in ("streamed", "resolved", "hydrate-extra", "hydrate-wide", "hydrate-typed", "hydrate-reactive"):
+    if item.get("kind") in ("streamed", "resolved", "hydrate-extra", "hydrate-wide", "hydrate-typed", "hydrate-reactive", "hydrate-leptos"):
         return True
     if isinstance(model, str) or len(model) < 3 or item.get("kind") == "streamed-forms":
         return False
@@ -1060,6 +1157,11 @@ def _show_dom(d):
 
 def describe(it):
     c = it["case"]
+    if c[0] == 5:
+        from . import c04
+        return "%s of %s ; resources %s ; s=%r ; hydrate next to a client-built twin ; steps %s ; then complete all, drop both" % (
+            ["", "in-order stream", "out-of-order stream"][c[1]], c04._lt(c[2]), [c04._se(e) for e in c[3]], c[4],
+            "; ".join("set %s, poll %r, complete %r" % (",".join("s%d=%d" % (i, x) for i, x in w), p, k) for w, p, k in c[5]))
     if c[0] == 6:
         return "hydrate (%s) %s ; then rebuild with %s" % (
             "hydrate_from_position(el, Position::Current)" if c[4] else "hydrate_from(root)", W.show(c[1]), W.show(c[2]))
